@@ -12,6 +12,7 @@ From FB.Proofs Require Import CleanLaws FrameLaws RollbackDirsLaws ViewDefs View
    (Gen/BookGen.v, regenerated on every run); a change of those sources that the model does not follow breaks this import *)
 From FB.Proofs Require BookGenLaws.
 From FB.Proofs Require CacheGenLaws.   (* T1g: the model routines are equal to the translation of the source (Gen/CacheGen.v) *)
+From FB.Proofs Require DriverGenLaws.   (* T1g: _build, _roll_back, _commit, clean, _make_dirs, _make_room, FileBackups = Model/Build.v, Builder.v (Gen/DriverGen.v) *)
 Import ListNotations.
 
 (* the model's clean computes the reference clean of what the cache file records
